@@ -269,6 +269,13 @@ def write_replay(prop, payload):
 
 
 def write_evidence(prop, tier, seed, coverage, wall, violations, assumptions):
+    if os.path.realpath(REPO) != '/repo':
+        # a run against a scratch worktree (seeded changes) must not overwrite the evidence of /repo itself
+        alt = os.path.join(BUILD, 'evidence-other-repo')
+        os.makedirs(alt, exist_ok=True)
+        with open(os.path.join(alt, f'{prop}.json'), 'w', encoding='utf-8') as f:
+            json.dump({'property_id': prop, 'repo': REPO, 'violations': int(violations), 'coverage': coverage}, f, indent=1, default=str)
+        return
     os.makedirs(os.path.join(VERIF, 'evidence'), exist_ok=True)
     ev = {'property_id': prop, 'tier': tier, 'seed': int(seed), 'level': 'proof',
           'coverage': coverage, 'assumptions': assumptions, 'wall_s': round(wall, 2),
